@@ -616,29 +616,33 @@ def step_from(rng, ty, shape):
             return rng.choice(["first", "last"]), {"arrn": "num", "arrs": "str", "arrb": "bool"}[ty], {}
         if c < 27:
             return "length", "num", {}
-        if c < 40 and ty == "arrn":
+        if c < 38 and ty == "arrn":
             f = gen_scalar_fun(rng)
             return ("map", f), ("arrb" if isinstance(f, tuple) and f[0] in ("gtk", "eqk") else "arrn"), shape
-        if c < 50 and ty == "arrn":
+        if c < 51 and ty == "arrn":
             l = gen_lit_arr(rng)
             return (rng.choice(["concatr", "concatl"]), l), "arrn", {"len": ln + len(l[1])}
         if c < 58:
             a = rng.range(0, ln)
             b = rng.range(a, ln) if not rng.chance(1, 12) else ln + 1
             return (rng.choice(["slice", "slicep"]), a, b), ty, {"len": max(b - a, 0)}
-        if c < 68 and ty == "arrn":
+        if c < 67 and ty == "arrn":
             return (rng.choice(["foldl", "foldr"]), gen_fun2(rng), rng.range(0, 2)), "num", {}
-        if c < 76 and ty == "arrn":
+        if c < 75 and ty == "arrn":
             k = rng.choice(["filter", "any", "all"])
             return (k, gen_pred(rng)), ("arrn" if k == "filter" else "bool"), shape
-        if c < 79 and ty == "arrn":
+        if c < 78 and ty == "arrn":
             return ("elem", rng.range(0, 4)), "bool", {}
-        if c < 85:
+        if c < 83:
             return "reverse", ty, shape
-        if c < 90:
+        if c < 88:
             return rng.choice(["seq", "deepseq", "serde"]), ty, shape
         if c < 96 and ty == "arrn":
             xs = [n(rng.range(0, 5)) for _ in range(ln if rng.chance(3, 4) else rng.range(0, 3))]
+            if "vals" in shape and len(shape["vals"]) == ln and rng.chance(2, 3):
+                xs = [n(v) for v in shape["vals"]]          # equal everywhere but (maybe) at one position
+                if xs and rng.chance(1, 4):
+                    xs[rng.below(len(xs))] = n(9)
             return (rng.choice(["eqr", "eql"]), ("larr", xs, rng.choice(["none", T_ARR]))), "bool", {}
         if ty == "arrn":
             return ("ctr", T_ARR), ty, shape
@@ -682,25 +686,25 @@ def step_from(rng, ty, shape):
             return (rng.choice(["access", "get"]), s(nm())), "num", {}
         if c < 27:
             return "fields", "arrs", {"len": len(names)}
-        if c < 40:
+        if c < 38:
             return "values", "arrn", {"len": len(names)}
-        if c < 50:
+        if c < 47:
             return ("recmap", rng.choice(["snd", ("sndadd", 1), ("const", 0), "fst"])), "rec", shape
-        if c < 58:
+        if c < 54:
             return ("mapvalues", gen_scalar_fun(rng)), "rec", shape
-        if c < 62:
+        if c < 58:
             return "freeze", "rec", shape
-        if c < 68:
+        if c < 63:
             k = rng.choice([x for x in NAMES + ["e"] if x not in names] or ["e"]) if not rng.chance(1, 10) else nm()
             return ("insert", s(k), rng.range(0, 5)), "rec", {"names": names + ([k] if k not in names else [])}
-        if c < 74:
+        if c < 69:
             k = nm()
             return ("remove", s(k)), "rec", {"names": [x for x in names if x != k]}
-        if c < 77:
+        if c < 72:
             return ("hasfield", s(nm())), "bool", {}
-        if c < 84:
+        if c < 79:
             return "toarray", "arrrec", {"len": len(names)}
-        if c < 92:
+        if c < 87:
             fs = []
             for k in rng.shuffle(NAMES + ["e"])[:rng.range(0, 2)]:
                 fs.append((s(k), n(rng.range(0, 3))))
@@ -713,8 +717,13 @@ def step_from(rng, ty, shape):
             l = ("lrec", fs2, rng.choice(["none", "none", ("dictc", NUM), ("dictt", NUM)]))
             newn = names + [f[0][1] for f in fs2 if f[0][1] not in names]
             return (rng.choice(["merger", "mergel"]), l), "rec", {"names": newn}
-        if c < 96:
+        if c < 95:
             fs = [(s(k), n(rng.range(0, 3))) for k in (names if rng.chance(3, 4) else names[:-1])]
+            if "vals" in shape and set(shape["vals"]) == set(names) and rng.chance(2, 3):
+                fs = [(s(k), n(shape["vals"][k])) for k in names]
+                if fs and rng.chance(1, 4):
+                    i = rng.below(len(fs))
+                    fs[i] = (fs[i][0], n(9))
             return (rng.choice(["eqr", "eql"]), ("lrec", rng.shuffle(fs), "none")), "bool", {}
         return rng.choice(["seq", "deepseq", "serde"]), "rec", shape
     if ty == "num":
@@ -733,7 +742,7 @@ def gen_case(rng):
         pos = (rng.below(ln),) if special else None
         if pos:
             xs[pos[0]] = special
-        k, T, ty, shape = ("karr",) + tuple(xs), T_ARR, "arrn", {"len": ln}
+        k, T, ty, shape = ("karr",) + tuple(xs), T_ARR, "arrn", {"len": ln, "vals": [x[1] if x[0] == "n" else rng.range(0, 5) for x in xs]}
         if rng.chance(1, 6):
             entry = "dom"
     elif kind == "arr2":
@@ -762,7 +771,7 @@ def gen_case(rng):
             T = ("recc", sub, NUM, "open")
         else:
             T = ("recc", rng.shuffle(names), NUM, "closed")
-        ty, shape = "rec", {"names": list(names)}
+        ty, shape = "rec", {"names": list(names), "vals": {f[0][1]: (f[1][1] if f[1][0] == "n" else rng.range(0, 5)) for f in fs}}
     else:
         cont = rng.choice([None, None, ("addk", 1), "id", ("const", 0)])
         if special == BAD and rng.chance(1, 3):
@@ -881,14 +890,20 @@ def has_merge(o):
     return any(x in MERGE_OBS for x in flat_obs(o))
 
 
-def run_cases(ck, cases, exe_model):
+def run_cases(ck, cases, exe_model, impl_model_exe=None):
+    """impl_model_exe (sanity tests only): a (mutated) build of the model stands in for nickel, to
+    measure what the generator + oracle detect."""
     nk = core.harness_bin("nkeval")
     ml = [model_line(c) for c in cases]
     rl = [reach_line(c) if c["pos"] and c["k"][0] != "kfun" else "reach\tnone\t(karr)\tid\t0" for c in cases]
     rc0, mod_out, e0 = core.run_sharded(exe_model, [], ml)
     rc3, reach_out, e3 = core.run_sharded(exe_model, [], rl)
-    rc1, imp_out, e1 = core.run_sharded(nk, [], [impl_line(c, True) for c in cases])
-    rc2, raw_out, e2 = core.run_sharded(nk, [], [impl_line(c, False) for c in cases])
+    if impl_model_exe:
+        rc1, imp_out, e1 = core.run_sharded(impl_model_exe, [], ml)
+        rc2, raw_out, e2 = core.run_sharded(impl_model_exe, [], [model_line(c, "none").replace("rundom\t", "run\t") for c in cases])
+    else:
+        rc1, imp_out, e1 = core.run_sharded(nk, [], [impl_line(c, True) for c in cases])
+        rc2, raw_out, e2 = core.run_sharded(nk, [], [impl_line(c, False) for c in cases])
     if rc0 or rc1 or rc2 or rc3:
         ck.obligation("correspondence-run", "internal", False, "rc=%s/%s/%s/%s %s %s %s %s" % (rc0, rc1, rc2, rc3, e0[-300:], e1[-300:], e2[-300:], e3[-300:]))
     for c, m, a, u, r in zip(cases, mod_out, imp_out, raw_out, reach_out):
